@@ -888,6 +888,21 @@ func init() {
 	}, Ref: func(a []c13V) (c13V, c13St) { return c13VS("c:" + a[0].S), ok }})
 	c13Reg(&c13Fn{Name: "hCtxSub", Ctx: true, Params: []string{"int", "int"}, Go: func(c *vuego.VueContext, a, b int) int { return a - b },
 		Ref: func(a []c13V) (c13V, c13St) { return c13VI(a[0].I - a[1].I), ok }})
+	c13Reg(&c13Fn{Name: "hCtxJoin", Ctx: true, Variadic: "string", Go: func(c *vuego.VueContext, p ...string) string { return "c:" + strings.Join(p, "~") },
+		Ref: func(a []c13V) (c13V, c13St) { return c13VS("c:" + c13JoinV(a, "~")), ok }})
+	c13Reg(&c13Fn{Name: "hCtxSum", Ctx: true, Params: []string{"int"}, Variadic: "int", Go: func(c *vuego.VueContext, first int, rest ...int) int {
+		s := first * 1000
+		for _, r := range rest {
+			s += r
+		}
+		return s
+	}, Ref: func(a []c13V) (c13V, c13St) {
+		s := a[0].I * 1000
+		for _, r := range a[1:] {
+			s += r.I
+		}
+		return c13VI(s), ok
+	}})
 	c13Reg(&c13Fn{Name: "hErrS", Params: []string{"string"}, Go: func(s string) (string, error) {
 		if s == "bad" {
 			return "", errors.New("boom-bad")
